@@ -131,3 +131,5 @@ Definition saba_recalc_word (type : Z) : scheme :=
   saba_word_unsync type 2 ++ saba_word type ++ saba_word type ++ saba_word type.
 Definition saba_recalc_ok : bool :=
   forallb (fun t => same_element (saba_grading t) (saba_recalc_word t) (repeat_word 5 (saba_word t))) saba_plain_types.
+
+Definition whfast_word_unsync2 : scheme := [A half; B gen_SC; A gen_SC; B gen_SC; A half].   (* two WHFast steps with safe_mode 0 + synchronize *)
